@@ -130,6 +130,43 @@ Theorem C08_timestamp_text : forall f m j, ts_in_range (zfield 1 m) (zfield 2 m)
   wire_scalar f KTimestamp (VMsg m) j -> j = JStr (format_rfc3339nano (zfield 1 m) (zfield 2 m)).
 Proof. exact spec_timestamp_text. Qed.
 Print Assumptions C08_timestamp_text.
+(* Independent readings of the two formatted kinds (not "equals the model's formatter"):
+   a timestamp of the documented range is YYYY-MM-DDTHH:MM:SS[.1-9 digits]Z with explicit decimal
+   digits, a real calendar day and time of day, the literal zone Z, and the UTC instant the fields
+   denote is the encoded one; the RFC 3339 reader reads it back. *)
+Theorem C08_timestamp_rfc3339_utc : forall s ns, ts_range s ns ->
+  exists y mo d hh mi ss (frac : list N),
+    (1 <= y <= 9999 /\ 1 <= mo <= 12 /\ 1 <= d <= days_in mo y /\
+     0 <= hh <= 23 /\ 0 <= mi <= 59 /\ 0 <= ss <= 59)%Z /\
+    (s = days_from_civil y mo d * 86400 + hh * 3600 + mi * 60 + ss)%Z /\
+    format_rfc3339nano s ns =
+      d4 y ++ [45] ++ d2 mo ++ [45] ++ d2 d ++ [84] ++ d2 hh ++ [58] ++ d2 mi ++ [58] ++ d2 ss ++ frac ++ [90] /\
+    (frac = [] /\ ns = 0%Z \/
+     exists ds, frac = 46 :: ds /\ ds <> [] /\ forallb is_digit ds = true /\ (length ds <= 9)%nat).
+Proof. exact format_rfc3339_shape. Qed.
+Print Assumptions C08_timestamp_rfc3339_utc.
+Theorem C08_timestamp_reads_back : forall s ns, ts_range s ns ->
+  parse_rfc3339 (format_rfc3339nano s ns) = Some (s, ns).
+Proof. exact parse_format_rfc3339. Qed.
+Print Assumptions C08_timestamp_reads_back.
+(* a date is 4 digits, '-', 2 digits, '-', 2 digits (10 bytes), and reads back as the same numbers *)
+Theorem C08_date_zero_padded : forall y m d, (0 <= y <= 9999)%Z -> (0 <= m <= 99)%Z -> (0 <= d <= 99)%Z ->
+  exists a b c, date_string y m d = a ++ [45] ++ b ++ [45] ++ c /\
+                length a = 4%nat /\ length b = 2%nat /\ length c = 2%nat /\
+                forallb is_digit (a ++ b ++ c) = true /\ length (date_string y m d) = 10%nat.
+Proof. exact date_string_shape. Qed.
+Print Assumptions C08_date_zero_padded.
+Theorem C08_date_reads_back : forall y m d, (0 <= y <= 9999 -> 1 <= m <= 12 -> 1 <= d <= days_in m y ->
+  date_from_string (date_string y m d) = Some (y, m, d))%Z.
+Proof. exact date_roundtrip. Qed.
+Print Assumptions C08_date_reads_back.
+(* the model's scalar arms realise the label table that the Go switch tables are proved to agree
+   with (C08_switch_arms): the shape of every successful scalar output, per kind *)
+Theorem C08_scalar_arms : forall fmt_float k v txt,
+  enc_scalar fmt_float k v = Ok txt ->
+  repr_holds fmt_float (model_repr k) (match k with KFloat32 => true | _ => false end) txt.
+Proof. exact enc_scalar_repr. Qed.
+Print Assumptions C08_scalar_arms.
 Theorem C08_enum_short_name : forall f env r v j, wire_value f env (FEnum r) v j ->
   exists pre opts n name, lookup env r = Some (SEnum pre opts) /\ v = VEnum n /\
                           option_by_number opts n = Some name /\ j = JStr name.
